@@ -553,6 +553,22 @@ def chain_of(text: str | bytes) -> dict | None:
             node = knode
         elif t == "parenthesized_expression":
             node = node.child_by_field_name("expression") or node.named_children[0]
+        elif t == "apply_expression":
+            # a call below other frames: `({ formals }: body) name' - the argument is a NAME resolved at the call site
+            fn, _ = _strip_paren(node.child_by_field_name("function"))
+            arg, _ = _strip_paren(node.child_by_field_name("argument"))
+            if fn.type != "function_expression" or arg.type != "variable_expression":
+                return None
+            fm = next((c for c in fn.children if c.type == "formals"), None)
+            binds = []
+            for f in (fm.children if fm is not None else []):
+                if f.type == "formal":
+                    nm = _text(f.child_by_field_name("name") or f.named_children[0], b)
+                    d = f.child_by_field_name("default")
+                    binds.append({"n": nm, "k": "formal", "v": int(_text(d, b)) if d is not None and d.type == "integer_expression" else 0,
+                                  "m": "", "arg": 0})
+            frames.append({"kind": "formals", "binds": binds, "argn": _text(arg, b)})
+            node = fn.child_by_field_name("body")
         else:
             return None
     if x is None:
